@@ -331,10 +331,10 @@ def main():
         c = CLAIMED[pid]
         checks.append({
             "property_id": pid,
-            "quick_cmd": "./check %s --tier quick" % pid,
-            "thorough_cmd": "./check %s --tier thorough" % pid,
+            "quick_cmd": "/verif/check %s --tier quick" % pid,
+            "thorough_cmd": "/verif/check %s --tier thorough" % pid,
             "evidence_file": "/verif/evidence/%s.json" % pid,
-            "replay_cmd_template": "./check %s --replay {path}" % pid,
+            "replay_cmd_template": "/verif/check %s --replay {path}" % pid,
             "engine": "coq-proof+correspondence",
             "level_claimed": {"category": "proof", "text": c["text"], "design_ref": c["design"]},
             "level_note": c["note"],
